@@ -211,4 +211,5 @@ class Sampling:
     def local_by_class(self, cls):
         b = self.body
         # user variables only (locals with a debug name), not compiler temporaries
-        return [l for l in sorted(b.names) if b.local_ty(l) in ("u128", "std::option::Option<u32>") and self.classify_local(l) == cls]
+        # (not the variables of helpers spliced in by lib.inline: their debug names carry an `@helper` suffix)
+        return [l for l in sorted(b.names) if "@" not in b.names[l] and b.local_ty(l) in ("u128", "std::option::Option<u32>") and self.classify_local(l) == cls]
